@@ -192,8 +192,13 @@ def gen_case(rng, stratum, pairing, tier='quick', delays=None, adversary=None, u
              wide=False):
     """One simulation case."""
     st = stratum
+    # a minority of larger scenarios (more machines, more overlapping observations, bigger DAGs)
+    large = st in ('benign', 'contend', 'simul') and \
+        rng.random() < (0.06 if tier == 'quick' else 0.2)
     # ---- cluster
-    if st == 'contend':
+    if large:
+        n = rng.randint(6, 12)
+    elif st == 'contend':
         n = rng.randint(1, 4)
     elif st == 'zero':
         n = rng.choice([1, 1, 2, 3])
@@ -212,7 +217,9 @@ def gen_case(rng, stratum, pairing, tier='quick', delays=None, adversary=None, u
     if st in ('contend', 'simul') and rng.random() < 0.6:
         max_ingest = n
     # ---- observations
-    if st == 'zero':
+    if large:
+        k = rng.randint(4, 7)
+    elif st == 'zero':
         k = rng.choice([1, 1, 2])
     elif st in ('simul', 'contend'):
         k = rng.randint(2, 5)
@@ -259,7 +266,9 @@ def gen_case(rng, stratum, pairing, tier='quick', delays=None, adversary=None, u
         if same_start:
             ing = rng.randint(1, max(1, (n + 1) // 2))
             demand = 1
-        wf = gen_workflow(rng, machines, nmax=(6 if st == 'zero' else rng.choice([4, 6, 8, 12])),
+        wf = gen_workflow(rng, machines, nmax=(6 if st == 'zero' else
+                                               rng.choice([8, 12, 16]) if large else
+                                               rng.choice([4, 6, 8, 12])),
                           zero_bias=(0.45 if st == 'zero' else 0.08),
                           big=(st == 'contend'))
         if wide:
